@@ -488,7 +488,7 @@ class Engine:
     def const(self, c):
         m = INT_RE.match(c)
         if m: return IntV(self.WIDTH[m.group(2)], int(m.group(1)), m.group(2)[0] == 'i')
-        mm = re.match(r'^(u8|u16|u32|u64|usize|i8|i16|i32|i64|isize)::(MAX|MIN)$', c)
+        mm = re.match(r'^(?:core::num::<impl )?(u8|u16|u32|u64|usize|i8|i16|i32|i64|isize|u128|i128)>?::(MAX|MIN)$', c)
         if mm:
             w = self.WIDTH[mm.group(1)]; sg = mm.group(1)[0] == 'i'
             v = ((1 << (w - 1)) - 1 if sg else (1 << w) - 1) if mm.group(2) == 'MAX' else (-(1 << (w - 1)) if sg else 0)
@@ -505,6 +505,10 @@ class Engine:
             cells = [IntV(8, x) for x in bs]
             return Ref(cells, (0,), len(cells), 'static_str')
         if c.startswith('PhantomData'): return UNIT
+        m = re.match(r'^<(.*) as (?:std|core)::mem::SizedTypeProperties>::(SIZE|ALIGN)$', c)
+        if m:
+            sz, al = self.type_layout(m.group(1).strip())
+            return IntV(self.PW, sz if m.group(2) == 'SIZE' else al)
         m = re.match(r'^\{(alloc\w+): &.*\}$', c)
         if m:
             data = self.allocs[m.group(1)]
@@ -643,6 +647,21 @@ class Engine:
         # references to locals / fields of locals
         return 'local'
 
+    def type_layout(self, t):
+        """(size, align) in bytes of the few types whose layout the debug-build UB checks mention"""
+        pw = self.PW // 8
+        if t in self.WIDTH and t != 'bool': return (self.WIDTH[t] // 8, self.WIDTH[t] // 8 if self.WIDTH[t] <= 64 else 16)
+        if t == 'bool': return (1, 1)
+        if t == '()': return (0, 1)
+        m = re.match(r'^\[(.*); (\d+)\]$', t)
+        if m:
+            s, a = self.type_layout(m.group(1)); return (s * int(m.group(2)), a)
+        if t.startswith(('&', '*const ', '*mut ')):
+            inner = re.sub(r"^(&(\'\w+ )?(mut )?|\*const |\*mut )", '', t)
+            fat = inner.startswith('[') and ';' not in inner or inner in ('str',) or inner.startswith('dyn ')
+            return (2 * pw if fat else pw, pw)
+        raise Unsupported('layout of type ' + t)
+
     def const_usize(self, s):
         s = s.strip()
         if s.startswith('const '): s = s[6:]
@@ -727,6 +746,7 @@ class Engine:
             if op == 'SubWithOverflow': return [IntV(a.w, a.off - b.off), BoolV(a.off < b.off)]
         if a.__class__ is AddrV and b.__class__ is IntV and b.conc():
             if op in ('Eq', 'Ne') and b.v == 0: return BoolV(op == 'Ne')   # allocations are never at address 0
+            if op == 'BitAnd' and b.v == 0: return IntV(a.w, 0)
             if op == 'BitAnd' and a.alloc != 'buf' and b.v < 16: return IntV(a.w, 0)   # non-buffer allocations are aligned for their type
             if op in ('Add', 'AddUnchecked'): return AddrV(a.w, a.alloc, a.root, a.off + b.v)
             if op in ('Sub', 'SubUnchecked'): return AddrV(a.w, a.alloc, a.root, a.off - b.v)
